@@ -18,7 +18,9 @@ def run(tier):
     wd = vlib.workdir("c01")
     exe, text = views.build_replayer(wd)
     if exe is None:
-        raise vlib.Broken("replay_views.cpp does not compile against %s:\n%s" % (vlib.REPO, text[-3000:]))
+        views.report_build_failure(rep, wd, text, "replay_views.cpp")
+        return rep.finish(rule="the replayer does not build: one translation unit per (operation, receiver value category, dimensionality, "
+                          "array/view) names what stopped compiling", exhaustive=False)
     runs = [("c01_main", constants(tier))]
     if tier == "thorough":
         # full call-syntax argument enumeration at depth 2, and 4-dimensional roots at depth 2
@@ -29,6 +31,11 @@ def run(tier):
     else:
         c2 = constants("quick"); c2.update({"ParenLean": False, "MaxDepth": 1, "MaxD": 3})
         runs.append(("c01_parenfull1", c2))
+    # receiver value categories: every operation reached through its const& and && overloads as well
+    cr = constants("quick"); cr.update({"MaxExt": 2, "Recvs": vlib.Sub("RecvsCR")})
+    if tier == "thorough":
+        cr.update({"MaxExt": 3})
+    runs.append(("c01_recv", cr))
     exhaustive = True
     sims = {}
     if tier == "thorough":
@@ -58,4 +65,4 @@ def run(tier):
                       "operations with all in-domain arguments, programs of length <= MaxDepth) is one program; "
                       "non-trivial = at least one layout-changing operation and a resulting view of >= 2 elements; "
                       "distinct = distinct (root, program)", exhaustive=exhaustive,
-                      extra={"runs": [{"name": n, "constants": {k: (sorted(v) if isinstance(v, set) else v) for k, v in c.items()}} for n, c in runs]})
+                      extra={"runs": [{"name": n, "constants": {k: (sorted(v) if isinstance(v, set) else repr(v) if isinstance(v, vlib.Sub) else v) for k, v in c.items()}} for n, c in runs]})
